@@ -5,6 +5,16 @@
 open C03_model
 open Conv
 
+(* the extracted list functions are not tail recursive: a scale case of 10^6 nodes needs more than the default 8 MiB
+   of stack, so the driver re-executes itself once under a larger stack limit (stdin has not been touched yet) *)
+let () =
+  if (try Sys.getenv "VERIF_BIGSTACK" <> "1" with Not_found -> true) then begin
+    Unix.putenv "VERIF_BIGSTACK" "1";
+    (try Unix.execv "/bin/sh"
+           [| "/bin/sh"; "-c"; "ulimit -s 4194304 2>/dev/null || ulimit -s unlimited 2>/dev/null; exec \"$0\" \"$@\""; Sys.executable_name |]
+     with _ -> ())
+  end
+
 let z = z_of_int
 let zi = int_of_z
 
